@@ -145,6 +145,12 @@ private:
         {
             for( uint32_t k = 0; ; )
             {
+                // keep room for one more digit and the terminating zero
+                if( k >= sizeof( _text_buffer ) - 1 )
+                {
+                    io_error( "pnm: number has too many digits." );
+                }
+
                 int ch = this->_io_dev.getc_unchecked();
 
                 if( isdigit( ch ))
